@@ -27,6 +27,14 @@ theorem window_accesses_locked :
       a.1 ≠ "__init__" → a.1 ≠ "_set_remote_channel" → a.1 ≠ "__repr__" → a.2.2 = true := by
   decide
 
+/-- **`in_window_sofar` is written only by `_check_add_window`** (and set to 0 by the constructor and `_set_window`):
+    the methods of class Channel that assign it, from the AST of channel.py on this run.  The credit bound
+    `adjust_le_consumed` (Σ adjusts ≤ bytes handed to the application) speaks about the code only together with this:
+    nothing else — e.g. moving buffered stderr bytes into the stdout buffer in `set_combine_stderr` — may credit. -/
+theorem sofar_written_only_by_check_add_window :
+    ∀ w ∈ PV.Generated.C19.sofar_writers, w = "__init__" ∨ w = "_set_window" ∨ w = "_check_add_window" := by
+  decide
+
 /-- the clamp the model applies to the peer-advertised maximum packet size (`sanitizePkt` in `init`) is in the
     source where the model has it: `_set_remote_channel` stores `_sanitize_packet_size(max_packet_size)`, which is
     `clamp_value(MIN_PACKET_SIZE, max_packet_size, MAX_WINDOW_SIZE)` (facts read from the AST on every run) -/
